@@ -20,7 +20,7 @@ PLANS = {
         "C11": [("valid", "valid", 2, 3, 0, 12000), ("valid-sim", "valid", 4, 2, 0, 300, "plain", [(100, 1)]), ("valid-cli-sim", "valid", 2, 3, 0, 2000),
                 ("valid-hap-cli-sim", "valid", 2, 2, 0, 1500, "hap"), ("tagged-hap-cli-sim", "tagged", 3, 3, 0, 2000, "hap"), ("tagged-hap3-cli-sim", "tagged", 3, 2, 0, 1500, "hap3"),
                 ("tagperturb-hap-cli-sim", "tagperturb", 2, 1, 1, 1500, "hap")],
-        "C09": [("tagged-sim", "tagged", 3, 0, 0, 6000, "plain"), ("tagged-hap-sim", "tagged", 3, 0, 0, 6000, "hap"), ("tagged-hap3-sim", "tagged", 3, 0, 0, 3000, "hap3"),
+        "C09": [("tagged-sim", "tagged", 3, 0, 0, 6000, "plain"), ("tagged-hap-sim", "tagged", 3, 0, 0, 6000, "hap"), ("tagged-hap3-sim", "tagged", 3, 0, 0, 3000, "hap3"), ("tagged-trio-sim", "tagged", 3, 0, 0, 2500, "trio"), ("tagged-trio-cli-sim", "tagged", 3, 0, 0, 1200, "trio"),
                 ("tagged-cli-sim", "tagged", 3, 0, 0, 1500, "plain"), ("tagged-hap-cli-sim", "tagged", 3, 0, 0, 2000, "hap"), ("tagged-hap3-cli-sim", "tagged", 3, 0, 0, 2000, "hap3")],
     },
     "thorough": {
@@ -36,7 +36,7 @@ PLANS = {
                 ("valid-cli", "valid", 2, 6, 0, 8000), ("valid-hap-cli", "valid", 2, 4, 0, 6000, "hap"), ("tagged-hap-cli-sim", "tagged", 3, 3, 0, 8000, "hap"), ("tagged-hap3-cli", "tagged", 3, 0, 0, 5000, "hap3"),
                 ("tagperturb-hap-cli-sim", "tagperturb", 3, 1, 1, 5000, "hap")],
         "C09": [("tagged", "tagged", 3, 2, 0, 20000, "plain"), ("tagged-hap", "tagged", 3, 2, 0, 20000, "hap"), ("tagged4", "tagged", 4, 0, 0, 12000, "hap"),
-                ("tagged-hap3", "tagged", 3, 0, 0, 12000, "hap3"),
+                ("tagged-hap3", "tagged", 3, 0, 0, 12000, "hap3"), ("tagged-trio", "tagged", 3, 0, 0, 12000, "trio"), ("tagged-trio-cli-sim", "tagged", 3, 0, 0, 6000, "trio"),
                 ("tagged-cli", "tagged", 3, 1, 0, 8000, "plain"), ("tagged-hap-cli", "tagged", 3, 1, 0, 8000, "hap"), ("tagged-hap3-cli", "tagged", 3, 0, 0, 8000, "hap3")],
     },
 }
